@@ -467,11 +467,20 @@ func c16Run(w *W) {
 				w.Probe("huge-announcement-dropped")
 			case k == 8: // truncated frame then silence, or then close
 				n := 10 + a%50
+				if big := 66000 + 1013*(a%200); a%4 == 3 && (limit == 0 || limit >= big) {
+					// a frame beyond the largest buffer class, most of it sent: an
+					// end of stream inside it is not the end of the message
+					n = big
+					w.Probe("large-frame-truncated")
+				}
 				if limit > 0 && n > limit {
 					n = limit
 				}
 				f := wcFrame(ipc, wireBody(n, a))
 				cut := 1 + a%(len(f)-1)
+				if n > 60000 {
+					cut = len(f) - 1 - (a*7919)%(n/2)
+				}
 				w.Op("hostile: %d of %d frame bytes, then %s", cut, len(f), []string{"silence", "close"}[a%2])
 				w.Fault("junk")
 				p.c.Write(f[:cut])
